@@ -75,9 +75,10 @@ macro_rules! impl_tuples {
             }
         }
 
-		impl<T: ZeroCopy + TypeHash + AlignHash> SerializeInner for ($($t,)*) {
+		impl<T: ZeroCopy + SerializeInner + TypeHash + AlignHash> SerializeInner for ($($t,)*) {
             type SerType = Self;
-            const IS_ZERO_COPY: bool = true;
+            // As for arrays, a tuple is zero-copy only if its items are
+            const IS_ZERO_COPY: bool = T::IS_ZERO_COPY;
             const ZERO_COPY_MISMATCH: bool = false;
 
             #[inline(always)]
